@@ -3,6 +3,7 @@ package props
 import (
 	"bytes"
 	"fmt"
+	"runtime/debug"
 	"testing"
 
 	"github.com/cloudwego/gopkg/bufiox"
@@ -638,53 +639,11 @@ func TestC08_Depth(t *testing.T) {
 	rec := evid.New("C08", "c08_depth", "enumeration: nesting chains of depth 1..70 x container kind {struct,map(value side),map(key side),set,list} x innermost content {empty, scalar, string, fixed-width elements}; exact agreement demanded up to level 63, rejection from 65, level 64 counted as boundary zone; distinct by construction")
 	defer rec.Flush()
 	build := func(kind int, leaf int, d int) ref.Value {
-		var mk func(level int) ref.Value
-		mk = func(level int) ref.Value {
-			var child *ref.Value
-			if level < d {
-				c := mk(level + 1)
-				child = &c
-			} else {
-				switch leaf {
-				case 1:
-					child = &ref.Value{T: ref.I32, Bits: 5}
-				case 2:
-					child = &ref.Value{T: ref.STRING, Str: []byte("ab")}
-				case 3:
-					child = &ref.Value{T: ref.DOUBLE, Bits: 0x7ff8000000000001}
-				}
-			}
-			switch kind {
-			case 0:
-				v := ref.Value{T: ref.STRUCT}
-				if child != nil {
-					v.Fields = []ref.Field{{ID: 1, V: *child}}
-				}
-				return v
-			case 1:
-				v := ref.Value{T: ref.MAP, KT: ref.I16, ET: ref.STRING}
-				if child != nil {
-					v.ET = child.T
-					v.Elems = []ref.Value{{T: ref.I16, Bits: 1}, *child}
-				}
-				return v
-			case 2:
-				v := ref.Value{T: ref.MAP, KT: ref.STRING, ET: ref.BOOL}
-				if child != nil {
-					v.KT = child.T
-					v.Elems = []ref.Value{*child, {T: ref.BOOL, Bits: 1}}
-				}
-				return v
-			default:
-				v := ref.Value{T: int8(ref.SET + kind - 3), ET: ref.STRING}
-				if child != nil {
-					v.ET = child.T
-					v.Elems = []ref.Value{*child}
-				}
-				return v
-			}
+		kinds := make([]int, d)
+		for i := range kinds {
+			kinds[i] = kind
 		}
-		return mk(1)
+		return buildNestChain(kinds, leaf)
 	}
 	b := evid.NewBatch()
 	for d := 1; d <= 70; d++ {
@@ -715,6 +674,117 @@ func TestC08_Depth(t *testing.T) {
 		}
 	}
 	rec.Merge(b)
+	rec.SetExhaustive()
+}
+
+// buildNestChain builds nested containers, kinds[i] being the kind at level i+1: 0 struct, 1 map (child on
+// the value side), 2 map (child on the key side), 3 set, 4 list. leaf: 0 innermost container empty,
+// 1 i32, 2 string, 3 double (so that the innermost container takes the fixed-width fast paths).
+func buildNestChain(kinds []int, leaf int) ref.Value {
+	d := len(kinds)
+	var mk func(level int) ref.Value
+	mk = func(level int) ref.Value {
+		var child *ref.Value
+		if level < d {
+			c := mk(level + 1)
+			child = &c
+		} else {
+			switch leaf {
+			case 1:
+				child = &ref.Value{T: ref.I32, Bits: 5}
+			case 2:
+				child = &ref.Value{T: ref.STRING, Str: []byte("ab")}
+			case 3:
+				child = &ref.Value{T: ref.DOUBLE, Bits: 0x7ff8000000000001}
+			}
+		}
+		switch kind := kinds[level-1]; kind {
+		case 0:
+			v := ref.Value{T: ref.STRUCT}
+			if child != nil {
+				v.Fields = []ref.Field{{ID: 1, V: *child}}
+			}
+			return v
+		case 1:
+			v := ref.Value{T: ref.MAP, KT: ref.I16, ET: ref.STRING}
+			if child != nil {
+				v.ET = child.T
+				v.Elems = []ref.Value{{T: ref.I16, Bits: 1}, *child}
+			}
+			return v
+		case 2:
+			v := ref.Value{T: ref.MAP, KT: ref.STRING, ET: ref.BOOL}
+			if child != nil {
+				v.KT = child.T
+				v.Elems = []ref.Value{*child, {T: ref.BOOL, Bits: 1}}
+			}
+			return v
+		default:
+			v := ref.Value{T: int8(ref.SET + kind - 3), ET: ref.STRING}
+			if child != nil {
+				v.ET = child.T
+				v.Elems = []ref.Value{*child}
+			}
+			return v
+		}
+	}
+	return mk(1)
+}
+
+// TestC08_DepthMixed: chains whose two innermost levels are of other kinds than the rest, around the limit.
+func TestC08_DepthMixed(t *testing.T) {
+	rec := evid.New("C08", "c08_depth_mixed", "enumeration: nesting chains of depth 60..70 whose levels 1..d-2 are of kind A, level d-1 of kind B and level d of kind C, for all A, B, C in {struct, map (value side), map (key side), set, list} x innermost content {empty, i32, string, double}; every skipper; exact agreement up to level 63, rejection from 65, level 64 counted as boundary zone; distinct by construction")
+	defer rec.Flush()
+	type job struct{ a, b, c, d, leaf int }
+	var jobs []job
+	for d := 60; d <= 70; d++ {
+		for a := 0; a < 5; a++ {
+			for b := 0; b < 5; b++ {
+				for c := 0; c < 5; c++ {
+					for leaf := 0; leaf < 4; leaf++ {
+						jobs = append(jobs, job{a, b, c, d, leaf})
+					}
+				}
+			}
+		}
+	}
+	var failed bool
+	lock := make(chan struct{}, 1)
+	parallelFor(len(jobs), func(i int, b *evid.Batch) {
+		if failed {
+			return
+		}
+		j := jobs[i]
+		kinds := make([]int, j.d)
+		for k := range kinds {
+			kinds[k] = j.a
+		}
+		kinds[j.d-2], kinds[j.d-1] = j.b, j.c
+		v := buildNestChain(kinds, j.leaf)
+		enc, _ := ref.Encode(&v)
+		pl := faultio.Plan{Chunks: []int{0}, ErrAt: -1}
+		if i%2 == 1 {
+			pl = faultio.Plan{Chunks: []int{5}, ErrAt: -1, WithData: true}
+		}
+		c := SkipCase{T: v.T, Data: enc, Plan: pl, Op: "depth_mixed"}
+		var cv cov
+		viol := checkSkipGrammarRec(c, &cv, nil)
+		b.Evals++
+		b.Distinct++
+		b.Nontrivial++
+		for _, l := range cv.labels {
+			b.Labels[l]++
+		}
+		if viol != nil {
+			lock <- struct{}{}
+			if !failed {
+				failed = true
+				failEnum(t, rec, "c08_skip_grammar", c, viol)
+			}
+			<-lock
+		}
+	}, rec)
+	rec.Sample(map[string]interface{}{"depth": 65, "outer": "struct", "level_d-1": "struct", "level_d": "list", "leaf": "double"})
 	rec.SetExhaustive()
 }
 
@@ -917,4 +987,225 @@ func TestC02_Retry(t *testing.T) {
 	rec := evid.New("C02", "c02_retry", "rapid: a well-formed value (plus trailer) is first requested under a type for which the bytes are not well formed (the call fails), then under its real type on the same decoder object, for BytesSkipDecoder and SkipDecoder (buffered and non-allocating reader): the second call must return exactly the value; non-trivial = the failed call had parsed >= 1 structural field before failing")
 	defer rec.Flush()
 	runRapid(t, rec, "c02_skip_retry", evid.Pick(20000, 100000), genSkipRetry, checkSkipRetry)
+}
+
+// ---- very large values ---------------------------------------------------------------------------------
+
+// SkipHugeCase: one well-formed value whose payload is N bytes (4..64 MiB), built from a pattern.
+type SkipHugeCase struct {
+	Kind     string `json:"kind"` // string list_i64 map_i32_i64 struct_string list_one_string set_byte
+	N        int    `json:"n"`
+	WithData bool   `json:"withdata,omitempty"`
+	Chunk    int    `json:"chunk,omitempty"`
+}
+
+func (c SkipHugeCase) build() (int8, []byte) {
+	be32 := func(b []byte, v int) []byte { return append(b, byte(v>>24), byte(v>>16), byte(v>>8), byte(v)) }
+	payload := func(b []byte, n int) []byte {
+		off := len(b)
+		b = append(b, make([]byte, n)...)
+		p := b[off:]
+		for i := 0; i < len(p); i += 251 {
+			p[i] = byte(i>>8) | 1
+		}
+		return b
+	}
+	switch c.Kind {
+	case "list_i64":
+		k := c.N / 8
+		return ref.LIST, payload(be32([]byte{byte(ref.I64)}, k), k*8)
+	case "set_byte":
+		return ref.SET, payload(be32([]byte{byte(ref.BYTE)}, c.N), c.N)
+	case "map_i32_i64":
+		k := c.N / 12
+		return ref.MAP, payload(be32([]byte{byte(ref.I32), byte(ref.I64)}, k), k*12)
+	case "struct_string":
+		b := payload(be32([]byte{byte(ref.STRING), 0, 1}, c.N), c.N)
+		return ref.STRUCT, append(b, byte(ref.I32), 0, 2, 0, 0, 0, 9, 0)
+	case "list_one_string":
+		return ref.LIST, payload(be32(be32([]byte{byte(ref.STRING)}, 1), c.N), c.N)
+	}
+	return ref.STRING, payload(be32(nil, c.N), c.N)
+}
+
+func checkSkipHuge(c SkipHugeCase, cv *cov) *evid.Violation {
+	if c.N < 0 || c.N > 1<<27 {
+		return nil
+	}
+	t, enc := c.build()
+	chunk := c.Chunk
+	if chunk <= 0 {
+		chunk = 1 << 20
+	}
+	sc := SkipSeqCase{Types: []int8{t}, Encs: []evid.Hex{enc}, Trailer: []byte{0xde, 0xad, 0xbe, 0xef, 1, 2, 3}, Plan: faultio.Plan{Chunks: []int{chunk}, ErrAt: -1, WithData: c.WithData}}
+	v := checkSkipSeq(sc, cv)
+	cv.nontrivial = true
+	cv.key = []byte(fmt.Sprintf("%s/%d/%v/%d", c.Kind, c.N, c.WithData, c.Chunk))
+	return v
+}
+
+func init() { register("c02_skip_huge", checkSkipHuge) }
+
+func TestC02_Huge(t *testing.T) {
+	rec := evid.New("C02", "c02_huge", "enumeration: one value with a payload of n bytes for n in {2^k-1, 2^k, 2^k+1, 2^k+2^(k-1)+777 : k = 22..25 (thorough: ..26)} x shape {string, list<i64>, set<byte>, map<i32,i64>, struct with that string, list of one string}, followed by a 7-byte trailer, through all five skippers (source delivering 1 MiB chunks, final data with and without io.EOF); run one at a time; distinct by construction")
+	defer rec.Flush()
+	bt := evid.NewBatch()
+	shard, nshards := evid.Shard()
+	idx := 0
+	for _, n := range hugeSizes() {
+		for ki, kind := range []string{"string", "list_i64", "set_byte", "map_i32_i64", "struct_string", "list_one_string"} {
+			idx++
+			if idx%nshards != shard {
+				continue
+			}
+			c := SkipHugeCase{Kind: kind, N: n, WithData: (ki+n)%2 == 0}
+			var cv cov
+			v := checkSkipHuge(c, &cv)
+			bt.Evals++
+			bt.Distinct++
+			bt.Nontrivial++
+			if v != nil {
+				failEnum(t, rec, "c02_skip_huge", c, v)
+				rec.Merge(bt)
+				return
+			}
+		}
+		debug.FreeOSMemory()
+	}
+	rec.Merge(bt)
+	rec.Sample(SkipHugeCase{Kind: "struct_string", N: 1<<24 + 1})
+	rec.SetExhaustive()
+}
+
+// SkipVirtualCase: a fixed-width container (or string) whose declared payload is up to 32 GiB, presented
+// to the stream-reader skip through a bufiox.Reader whose Skip only moves a cursor.
+type SkipVirtualCase struct {
+	T     int8   `json:"t"`
+	KT    int8   `json:"kt,omitempty"`
+	ET    int8   `json:"et,omitempty"`
+	Count uint32 `json:"count"`
+	Wrap  int    `json:"wrap,omitempty"` // 0 bare, 1 as the field of a struct, 2 as the element of a list
+}
+
+func checkSkipVirtual(c SkipVirtualCase, cv *cov) (v *evid.Violation) {
+	if c.Count > 0x7fffffff {
+		return nil
+	}
+	w := func(t int8) int64 {
+		switch t {
+		case ref.BOOL, ref.BYTE:
+			return 1
+		case ref.I16:
+			return 2
+		case ref.I32:
+			return 4
+		case ref.I64, ref.DOUBLE:
+			return 8
+		}
+		return 0
+	}
+	be32 := func(b []byte, v uint32) []byte { return append(b, byte(v>>24), byte(v>>16), byte(v>>8), byte(v)) }
+	var head []byte
+	var payload int64
+	switch c.T {
+	case ref.STRING:
+		head, payload = be32(nil, c.Count), int64(c.Count)
+	case ref.LIST, ref.SET:
+		if w(c.ET) == 0 {
+			return nil
+		}
+		head, payload = be32([]byte{byte(c.ET)}, c.Count), int64(c.Count)*w(c.ET)
+	case ref.MAP:
+		if w(c.KT) == 0 || w(c.ET) == 0 {
+			return nil
+		}
+		head, payload = be32([]byte{byte(c.KT), byte(c.ET)}, c.Count), int64(c.Count)*(w(c.KT)+w(c.ET))
+	default:
+		return nil
+	}
+	top := c.T
+	tail := int64(0)
+	switch c.Wrap {
+	case 1:
+		head = append([]byte{byte(c.T), 0, 7}, head...)
+		top, tail = ref.STRUCT, 1 // the stop byte reads as zero from the virtual part
+	case 2:
+		head = append(be32([]byte{byte(c.T)}, 1), head...)
+		top = ref.LIST
+	}
+	want := int64(len(head)) + payload + tail
+	vr := &faultio.VirtualReader{Head: head, Size: want + 9}
+	var err error
+	var readn int64
+	p, st := evid.Safe(func() {
+		tr := thrift.NewBufferReader(vr)
+		err = tr.Skip(thrift.TType(top))
+		readn = tr.Readn()
+		tr.Recycle()
+	})
+	cv.nontrivial = payload >= 1<<31
+	cv.labelIf(payload >= 1<<32, "payload >= 2^32 bytes")
+	cv.labelIf(payload >= 1<<31 && payload < 1<<32, "2^31 <= payload < 2^32")
+	cv.labelIf(payload < 1<<31, "payload < 2^31")
+	if p != nil {
+		return &evid.Violation{Msg: fmt.Sprintf("BufferReader.Skip panicked on a well-formed value with a declared payload of %d bytes: %v", payload, p), Stack: st}
+	}
+	if err != nil || readn != want || vr.Pos != want {
+		return evid.Failf("BufferReader.Skip(type %d) on a well-formed value (container type %d, key/elem types %d/%d, count %d, wrap %d) of %d bytes followed by 9 more bytes: err=%v, Readn=%d, reader position %d; want nil and exactly %d", top, c.T, c.KT, c.ET, c.Count, c.Wrap, want, err, readn, vr.Pos, want)
+	}
+	return nil
+}
+
+func init() { register("c02_skip_virtual", checkSkipVirtual) }
+
+func TestC02_Virtual(t *testing.T) {
+	rec := evid.New("C02", "c02_virtual", "enumeration + rapid: strings and fixed-width lists, sets and maps (all 6 element and 36 key/value type pairs) with declared counts from the boundary list {0, 1, 2^31/w - 1, 2^31/w, 2^31/w + 1, 2^32/w - 1, 2^32/w, 2^32/w + 1, 2^28 + 1, 2^31 - 1} for the element width w, and random counts, bare / as a struct field / as a list element; the value (up to 32 GiB) is presented to BufferReader.Skip through a bufiox.Reader whose Skip only moves a cursor; Readn and the reader position must equal the encoded size; non-trivial = payload >= 2^31 bytes")
+	defer rec.Flush()
+	fixed := []int8{ref.BOOL, ref.BYTE, ref.I16, ref.I32, ref.I64, ref.DOUBLE}
+	width := map[int8]uint64{ref.BOOL: 1, ref.BYTE: 1, ref.I16: 2, ref.I32: 4, ref.I64: 8, ref.DOUBLE: 8}
+	counts := func(w uint64) []uint32 {
+		var out []uint32
+		for _, x := range []uint64{0, 1, 1<<31/w - 1, 1 << 31 / w, 1<<31/w + 1, 1<<32/w - 1, 1 << 32 / w, 1<<32/w + 1, 1<<28 + 1, 1<<31 - 1} {
+			if x <= 0x7fffffff {
+				out = append(out, uint32(x))
+			}
+		}
+		return out
+	}
+	run := func(c SkipVirtualCase) bool {
+		var cv cov
+		v := checkSkipVirtual(c, &cv)
+		rec.Count(evid.HashJSON(c), cv.nontrivial, func() interface{} { return c }, cv.labels...)
+		if v != nil {
+			failEnum(t, rec, "c02_skip_virtual", c, v)
+			return false
+		}
+		return true
+	}
+	for wrap := 0; wrap < 3; wrap++ {
+		for _, n := range counts(1) {
+			if !run(SkipVirtualCase{T: ref.STRING, Count: n, Wrap: wrap}) {
+				return
+			}
+		}
+		for _, et := range fixed {
+			for _, n := range counts(width[et]) {
+				if !run(SkipVirtualCase{T: ref.LIST, ET: et, Count: n, Wrap: wrap}) || !run(SkipVirtualCase{T: ref.SET, ET: et, Count: n, Wrap: wrap}) {
+					return
+				}
+			}
+			for _, kt := range fixed {
+				for _, n := range counts(width[et] + width[kt]) {
+					if !run(SkipVirtualCase{T: ref.MAP, KT: kt, ET: et, Count: n, Wrap: wrap}) {
+						return
+					}
+				}
+			}
+		}
+	}
+	runRapid(t, rec, "c02_skip_virtual", evid.Pick(20000, 300000), func(t *rapid.T) SkipVirtualCase {
+		c := SkipVirtualCase{T: rapid.SampledFrom([]int8{ref.STRING, ref.LIST, ref.SET, ref.MAP, ref.MAP}).Draw(t, "t"), KT: rapid.SampledFrom(fixed).Draw(t, "kt"), ET: rapid.SampledFrom(fixed).Draw(t, "et"), Wrap: rapid.IntRange(0, 2).Draw(t, "wrap")}
+		c.Count = rapid.OneOf(rapid.Uint32Range(0, 0x7fffffff), rapid.Uint32Range(0x07000000, 0x21000000), rapid.Uint32Range(0, 100000)).Draw(t, "count")
+		return c
+	}, checkSkipVirtual)
 }
